@@ -87,6 +87,9 @@ func (w *WorkerReport) add(s *Spec, st *RunStat) {
 	}
 	w.Faults["preempt"] += int(st.Switches)
 	w.Faults["preempt_in_flight"] += int(st.InFlightSw)
+	if st.SoloUnwound {
+		w.Faults["run_cut_short_nonterminating_call_alone"]++
+	}
 	w.Faults["gc"] += int(st.GCs)
 	w.Faults["lock_blocked_switch"] += int(st.Blocked)
 	if st.Deadlock {
@@ -287,7 +290,7 @@ func cmdBatch(args []string) int {
 		setStuck(spec, rl.errors(), rl)
 		rr := runSpec(spec, func(solo int64) { finalizeSchedule(spec, rng, fset, solo) }, rl)
 		progressBump()
-		if *auditEvery > 0 && (run%*auditEvery == 0 || (spec.Siblings && run%5 == 0)) && len(rr.Violations) == 0 && !spec.Free {
+		if *auditEvery > 0 && !rr.Stat.Unwound && (run%*auditEvery == 0 || (spec.Siblings && run%5 == 0)) && len(rr.Violations) == 0 && !spec.Free {
 			if vs, err := auditHistory(spec, rr, *nsites, *out); err != nil {
 				rep.Infra = append(rep.Infra, err.Error())
 			} else {
